@@ -3,6 +3,7 @@ package connect
 import (
 	"context"
 	"errors"
+	"io"
 	"net/http"
 )
 
@@ -27,9 +28,15 @@ func c19PanicValue(kind int) any {
 		return errC19Wrapped
 	case 6:
 		return errC19Context
+	case 7:
+		return errC19EOF
 	}
 	return http.ErrAbortHandler
 }
+
+// an error value whose chain contains io.EOF - the value the library itself
+// uses for "stream ended": wrapped by the recovery function like the previous one
+var errC19EOF = &c15URLError{io.EOF}
 
 // an error value whose chain contains a context error: the recovery function
 // wraps it in its own coded error, and that code is what must arrive
@@ -58,6 +65,9 @@ func c19Same(kind int, got any) bool {
 	case 6:
 		e, ok := got.(error)
 		return ok && e == error(errC19Context)
+	case 7:
+		e, ok := got.(error)
+		return ok && e == error(errC19EOF)
 	}
 	e, ok := got.(error)
 	return ok && e == http.ErrAbortHandler
@@ -70,7 +80,7 @@ func c19Same(kind int, got any) bool {
 func HarnessC19Recover() {
 	kind := nondetChoice("kind", 4)     // unary, client stream, server stream, bidi
 	proto := nondetChoice("proto", 3)   // connect, grpc, grpc-web
-	pv := nondetChoice("value", 7)      // nil, error, string, struct, abort sentinel, error wrapping the sentinel, error wrapping a context error
+	pv := nondetChoice("value", 8)      // nil, error, string, struct, abort sentinel, error wrapping the sentinel, error wrapping a context error, error wrapping io.EOF
 	point := nondetChoice("point", 3)   // 0 = before anything, 1 = after one send (streams), 2 = no panic
 	pos := nondetChoice("position", 3)  // recover interceptor before / between / after two others
 	if kind <= 1 && point == 1 {
@@ -81,7 +91,7 @@ func HarnessC19Recover() {
 	handle := func(ctx context.Context, spec Spec, h http.Header, r any) error {
 		calls++
 		seen = r
-		if pv == 6 {
+		if pv >= 6 {
 			// the usual shape of a recovery function: wrap what was recovered
 			return NewError(CodeDataLoss, &c02Wrapper{prefix: "recovered", err: r.(error)})
 		}
@@ -245,6 +255,9 @@ func HarnessC19Recover() {
 			wantMsg := "recovered"
 			if pv == 6 {
 				wantMsg = "recovered: " + errC19Context.Error()
+			}
+			if pv == 7 {
+				wantMsg = "recovered: " + errC19EOF.Error()
 			}
 			check(ok && ce.Message() == wantMsg, "the client receives the message the recovery function returned")
 		}
